@@ -782,18 +782,20 @@ pub fn sign_legacy(signer_index: usize, nonce: u64, to: Option<Address>, data: V
 pub fn err_class(msg: &str) -> String {
     let mut out = String::new();
     let mut chars = msg.chars().peekable();
+    let mut prev_word = false;
     while let Some(c) = chars.next() {
-        if c == '0' && chars.peek() == Some(&'x') {
+        if c == '0' && chars.peek() == Some(&'x') && !prev_word {
             chars.next();
             while chars.peek().map(|x| x.is_ascii_hexdigit()).unwrap_or(false) { chars.next(); }
             out.push('#');
-        } else if c.is_ascii_digit() {
+        } else if c.is_ascii_digit() && !prev_word {
             while chars.peek().map(|x| x.is_ascii_digit()).unwrap_or(false) { chars.next(); }
             out.push('#');
         } else {
             out.push(c.to_ascii_lowercase());
         }
-        if out.len() >= 60 { break; }
+        prev_word = c.is_ascii_alphanumeric() || c == '_';
+        if out.len() >= 72 { break; }
     }
     out
 }
@@ -1008,31 +1010,18 @@ impl Tracker {
     /// `None`), as a history for a fresh instance: no commits, clears, reorgs, rejected calls.
     pub fn effective_history(&self, log: &[(Op, OpOut)], upto: Option<u64>) -> Vec<Op> {
         let mut out: Vec<Op> = Vec::new();
-        let mut mined: Option<(usize, u64)> = None; // (log index of the Mine op, blocks taken from it)
-        let flush = |m: &mut Option<(usize, u64)>, out: &mut Vec<Op>| {
-            if let Some((i, k)) = m.take() {
-                if let Op::Mine { ts, .. } = &log[i].0 { out.push(Op::Mine { n: k, ts: *ts }); }
-            }
-        };
         for b in &self.blocks {
             if let Some(u) = upto { if b.height > u { break; } }
             if b.how == "mine" {
+                // one Mine(1) per mined block (so that the history for `upto` is a prefix of the one
+                // for `upto + 1`); parked transactions submitted before the call travel with it
                 let mine_idx = *b.ops.last().unwrap();
-                // parked transactions submitted before the mine call travel with the first mined block
-                if b.ops.len() > 1 {
-                    flush(&mut mined, &mut out);
-                    for i in &b.ops[..b.ops.len() - 1] { out.push(log[*i].0.clone()); }
-                }
-                match &mut mined {
-                    Some((i, k)) if *i == mine_idx => *k += 1,
-                    _ => { flush(&mut mined, &mut out); mined = Some((mine_idx, 1)); }
-                }
+                for i in &b.ops[..b.ops.len() - 1] { out.push(log[*i].0.clone()); }
+                if let Op::Mine { ts, .. } = &log[mine_idx].0 { out.push(Op::Mine { n: 1, ts: *ts }); }
             } else {
-                flush(&mut mined, &mut out);
                 for i in &b.ops { out.push(log[*i].0.clone()); }
             }
         }
-        flush(&mut mined, &mut out);
         let include_open = match (upto, self.height()) { (None, _) => true, (Some(u), Some(h)) => u >= h, (Some(_), None) => true };
         if include_open { for i in &self.open.ops { out.push(log[*i].0.clone()); } }
         out
@@ -1058,6 +1047,8 @@ pub struct Universe {
     pub tickers: BTreeSet<String>,
     pub topics: BTreeSet<Hx>,
     pub max_txs_in_block: u64,
+    /// a block is open: requests that execute code would wait 5 s each for it to be finalised; skip them
+    pub block_open: bool,
 }
 
 impl Universe {
@@ -1231,9 +1222,16 @@ pub fn observe(inst: &mut Inst, u: &Universe) -> BTreeMap<String, Value> {
     for i in &u.insc_ids {
         ask(inst, format!("brc20_getTxReceiptByInscriptionId({})", i), "brc20_getTxReceiptByInscriptionId", json!([i]));
     }
+    let mut stalled = u.block_open;
     for p in &u.pkscripts {
         for t in &u.tickers {
-            ask(inst, format!("brc20_balance({},{})", p, t), "brc20_balance", json!([p, t]));
+            let key = format!("brc20_balance({},{})", p, t);
+            if stalled { o.insert(key, json!({"skipped": "a block is open"})); continue; }
+            let t0 = std::time::Instant::now();
+            let r = inst.rpc("brc20_balance", json!([p, t]));
+            // the engine makes executing reads wait (5 s) while a block is open; one such wait is enough
+            if t0.elapsed() > Duration::from_secs(3) { stalled = true; o.insert(key, json!({"skipped": "a block is open"})); continue; }
+            o.insert(key, canon_result(r));
         }
     }
     o
@@ -1282,7 +1280,11 @@ impl Run {
     pub fn step(&mut self, op: &Op) -> &OpOut {
         let r = self.resolve(op);
         let first_of_block = self.tracker.waiting() == 0;
+        let t0 = std::time::Instant::now();
         let out = apply(&mut self.inst, &r);
+        if t0.elapsed() > Duration::from_millis(300) && std::env::var("HX_SLOW").is_ok() {
+            eprintln!("slow op ({:?}): {} {:?} -> {}", t0.elapsed(), r.kind(), if r.is_read() { Some(&r) } else { None }, out.status.class());
+        }
         let idx = self.log.len();
         // remember what the open block was opened with
         if first_of_block && r.is_tx() && Tracker::effective(&r, &out) {
@@ -1305,8 +1307,12 @@ impl Run {
         true
     }
 
-    pub fn observe(&mut self) -> BTreeMap<String, Value> { observe(&mut self.inst, &self.universe) }
-    pub fn observe_with(&mut self, u: &Universe) -> BTreeMap<String, Value> { observe(&mut self.inst, u) }
+    pub fn observe(&mut self) -> BTreeMap<String, Value> { let u = self.universe.clone(); self.observe_with(&u) }
+    pub fn observe_with(&mut self, u: &Universe) -> BTreeMap<String, Value> {
+        let mut u = u.clone();
+        u.block_open = !self.tracker.at_boundary();
+        observe(&mut self.inst, &u)
+    }
     pub fn history(&self) -> Vec<Op> { self.log.iter().map(|x| x.0.clone()).collect() }
     pub fn statuses(&self) -> Vec<String> { self.log.iter().map(|x| x.1.status.class()).collect() }
 }
@@ -1336,10 +1342,16 @@ pub struct GenParams {
     pub edge_plans: bool,
     /// largest Mine(n)
     pub max_mine: u64,
+    /// chance (per 100 histories) of one compact "pool edge" script: park k+1, park k+2 a few blocks
+    /// later, deliver k exactly 9 / 10 / 11 blocks after the first parking (Mine calls skip the gaps)
+    pub p_pool_script: u64,
+    /// chance (per 100 histories) of ending with: park k+1, finalise, Mine(9), re-park a replacement
+    /// for k+1 in the open block (and no finalise)
+    pub p_pool_tail: u64,
 }
 impl GenParams {
     pub fn small() -> GenParams {
-        GenParams { blocks: 10, max_txs: 6, schedule: CommitSchedule::Never, genesis: Genesis::Any, p_reorg: 8, p_clear: 4, p_reopen: 3, p_mine: 15, edge_plans: true, max_mine: 4 }
+        GenParams { blocks: 10, max_txs: 6, schedule: CommitSchedule::Never, genesis: Genesis::Any, p_reorg: 8, p_clear: 4, p_reopen: 3, p_mine: 15, edge_plans: true, max_mine: 4, p_pool_script: 30, p_pool_tail: 0 }
     }
     /// no boundary ops that depend on what is durable, no reorgs
     pub fn plain(blocks: u64) -> GenParams {
@@ -1588,6 +1600,45 @@ impl<'a> Gen<'a> {
         self.busy_until[s] = edge;
     }
 
+    /// one block holding exactly the given planned signed transactions (plus maybe ordinary ones)
+    fn block_with(&mut self, forced: &[(usize, u64)], extra: bool) {
+        let (ts, hash) = self.block_params();
+        for f in forced { self.gen_signed(ts, &hash, Some(*f)); }
+        if extra { let n = self.rng.below(3); for _ in 0..n { self.gen_tx(ts, &hash); } }
+        self.out.push(Op::Finalise { ts, hash, tx_count: Idx::Auto });
+        self.finish_block();
+    }
+
+    fn pool_edge_script(&mut self) {
+        let s = self.rng.below(SIGNERS as u64) as usize;
+        let k = *self.cur.nonces.get(&signer_address(s)).unwrap_or(&0);
+        self.busy_until[s] = u64::MAX;
+        let edge = self.rng.range(9, 11); // delivery this many blocks after the first parking
+        let d1 = self.rng.range(1, 8);    // second parking this many blocks after the first
+        let start = self.next_height();
+        self.block_with(&[(s, k + 1)], true);
+        if d1 > 1 { self.mine(d1 - 1); }
+        self.block_with(&[(s, k + 2)], false);
+        let now = self.next_height();
+        let target = start + edge;
+        if target > now { self.mine(target - now); }
+        self.block_with(&[(s, k)], true);
+        self.busy_until[s] = 0;
+    }
+
+    fn pool_tail(&mut self) {
+        let s = self.rng.below(SIGNERS as u64) as usize;
+        let k = *self.cur.nonces.get(&signer_address(s)).unwrap_or(&0);
+        self.block_with(&[(s, k + 1)], false);
+        self.mine(9);
+        // a replacement (other payload) for the same nonce, in the open block
+        let (ts, hash) = self.block_params();
+        let raw = Hx(sign_legacy(s, k + 1, Some(Address::from_slice(&[0x66; 20])), cd::sload(U256::from(5)), CHAIN_ID));
+        let insc = self.fresh("tail");
+        let tail = Tail { ts, hash, tx_idx: Idx::Auto, insc_id: insc, byte_len: 2000, op_return_tx_id: self.rand32() };
+        self.out.push(Op::Transact { raw_tx: raw, enc: Enc::Hex, tail });
+    }
+
     fn mine(&mut self, n: u64) {
         let ts = self.base_ts + 600 * self.next_height();
         self.out.push(Op::Mine { n, ts });
@@ -1636,8 +1687,14 @@ pub fn gen_history(rng: &mut Rng, p: &GenParams) -> Vec<Op> {
         let n = g.rng.range(1, 3);
         g.mine(n);
     }
+    let script_at = if g.rng.below(100) < p.p_pool_script { Some(g.rng.range(1, p.blocks.max(2) / 2 + 1)) } else { None };
+    let tail = g.rng.below(100) < p.p_pool_tail;
+    let mut script_done = false;
     while g.next_height() <= p.blocks {
-        if g.rng.below(100) < p.p_mine {
+        if !script_done && script_at.map(|x| g.next_height() >= x).unwrap_or(false) {
+            script_done = true;
+            g.pool_edge_script();
+        } else if g.rng.below(100) < p.p_mine {
             let n = if g.rng.chance(1, 8) { g.rng.range(p.max_mine, p.max_mine + 9) } else { g.rng.range(1, p.max_mine.max(1)) };
             g.mine(n);
         } else {
@@ -1645,6 +1702,7 @@ pub fn gen_history(rng: &mut Rng, p: &GenParams) -> Vec<Op> {
         }
         g.boundary();
     }
+    if tail { g.pool_tail(); }
     let out = std::mem::take(&mut g.out);
     let mut r2 = g.rng.fork();
     with_schedule(&out, p.schedule, &mut r2)
@@ -1682,7 +1740,7 @@ pub fn inject_malformed(rng: &mut Rng, h: &[Op], count: usize) -> (Vec<Op>, Vec<
     let mut uid = 0u64;
     for _ in 0..count {
         if out.is_empty() { break; }
-        let pos = rng.below(out.len() as u64 + 1) as usize;
+        let pos = if rng.chance(1, 12) { 0 } else { rng.below(out.len() as u64 + 1) as usize };
         // the block-carrying call nearest before the position (its ts/hash are those of the open block)
         let near = out[..pos].iter().rev().find(|o| o.block_fields().is_some()).cloned();
         let near_tx = out[..pos].iter().rev().find(|o| o.is_tx()).cloned();
@@ -1702,7 +1760,10 @@ pub fn inject_malformed(rng: &mut Rng, h: &[Op], count: usize) -> (Vec<Op>, Vec<
         let mk_transact = |enc: Enc, raw: Vec<u8>, insc: String| Op::Transact {
             raw_tx: Hx(raw), enc, tail: Tail { ts, hash: hash.clone(), tx_idx: Idx::Auto, insc_id: insc, byte_len: 2000, op_return_tx_id: Hx::zero32() },
         };
-        let (kind, op): (&'static str, Op) = match rng.below(24) {
+        let roll = if pos == 0 && rng.chance(1, 2) { 13 } else { rng.below(25) };
+        // "differs from the open block" only means something while a block is open: move behind a transaction
+        let pos = if matches!(roll, 3 | 4 | 5) { (pos..out.len()).find(|p| *p > 0 && out[*p - 1].is_tx()).unwrap_or(pos) } else { pos };
+        let (kind, op): (&'static str, Op) = match roll {
             0 => ("wrong_tx_idx_plus", { let mut o = near_tx.clone().unwrap_or_else(|| mk_call(Enc::Hex, Idx::Auto, ts, hash.clone(), fresh.clone())); o.set_idx(Idx::Off(1 + rng.below(3) as i64)); o }),
             1 => ("wrong_tx_idx_minus", mk_call(Enc::Hex, Idx::Off(-1), ts, hash.clone(), fresh.clone())),
             2 => ("wrong_tx_idx_abs", mk_call(Enc::Hex, Idx::Abs(rng.range(7, 1 << 40)), ts, hash.clone(), fresh.clone())),
@@ -1726,6 +1787,7 @@ pub fn inject_malformed(rng: &mut Rng, h: &[Op], count: usize) -> (Vec<Op>, Vec<
             20 => ("deploy_bad_hex", mk_deploy(Enc::BadHex, fresh.clone())),
             21 => ("call_bad_base64", mk_call(Enc::BadBase64, Idx::Auto, ts, hash.clone(), fresh.clone())),
             22 => ("reorg_too_high", Op::Reorg(1 << 40)),
+            24 => ("initialise_other_height", Op::Initialise { hash: Hx::b256(keccak256(b"elsewhere")), ts, height: 1 << 20 }),
             _ => ("initialise_other_hash", Op::Initialise { hash: Hx::b256(keccak256(b"another genesis")), ts, height: 0 }),
         };
         out.insert(pos, op);
